@@ -239,6 +239,33 @@ func run[T signal.SignalTypes](c *Case) (res kit.Result) {
 				ext.SetSample(i, ns.model[i])
 			}
 			cur, off, moved = ns, 0, true
+			// An unrelated buffer of the same element type now grows as well, needing about
+			// as much storage as the destination just left behind: storage that was left
+			// (and is still referenced by views) must not be handed to anybody else.
+			left := old[len(old)-1]
+			if fr := len(left.model) / C; fr >= 2 {
+				other := kit.Root[T](C, fr/2)
+				more := kit.Root[T](C, fr-fr/2)
+				if p, v := kit.Try(func() { other.Append(more) }); p {
+					res.Failf("%s: growing an unrelated buffer afterwards panicked: %v", what, v)
+					return
+				}
+				wide := other.Slice(0, other.Capacity())
+				for i := 0; i < wide.Len(); i++ {
+					wide.SetSample(i, T(126))
+				}
+				for oi, o := range old {
+					if d := o.diff(fmt.Sprintf("storage %d the destination left", oi)); d != "" {
+						res.Failf("%s: an unrelated buffer that grew afterwards (to %d samples) writes into it: %s", what, wide.Len(), d)
+						return
+					}
+				}
+				if d := cur.diff("the destination's new storage"); d != "" {
+					res.Failf("%s: an unrelated buffer that grew afterwards shares it: %s", what, d)
+					return
+				}
+				res.Class("unrelatedGrowthAfterwards")
+			}
 		}
 		ln = oldLen + n
 		// frame conditions: the destination's storage matches its model everywhere,
